@@ -1,13 +1,80 @@
 // Injected into github.com/dapr/kit/schemes/enc/v1 with `go build -overlay` by the C08 check
 // (never written into /repo): the real readHeader, with its results handed out exactly as it
 // returned them, so that the harness can see where they point.
+//
+// The call goes through reflection so that this file — and with it the whole C08 harness, whose
+// API-level monitors do not need readHeader at all — still BUILDS when the signature of readHeader
+// changes (e.g. a caller-provided buffer): the shape actually found is reported by
+// VerifC08ReadHeaderShape and judged by the harness.
 package v1
 
-import "io"
+import (
+	"errors"
+	"fmt"
+	"io"
+	"reflect"
+)
+
+// ErrVerifC08Shape: readHeader has a signature this wrapper cannot drive.
+var ErrVerifC08Shape = errors.New("verif: readHeader has an unknown shape")
+
+var (
+	verifC08ReaderPtr = reflect.TypeOf((*io.Reader)(nil))
+	verifC08Reader    = verifC08ReaderPtr.Elem()
+	verifC08Bytes     = reflect.TypeOf([]byte(nil))
+	verifC08BytesPtr  = reflect.TypeOf((*[]byte)(nil))
+	verifC08Err       = reflect.TypeOf((*error)(nil)).Elem()
+)
+
+// VerifC08ReadHeaderShape describes the signature of readHeader: "own-buffer" = the shape the
+// white-box tie was written for, `func(*io.Reader) ([]byte, []byte, error)` (readHeader takes and
+// returns its buffer itself); "caller-buffer" = it additionally receives a []byte / *[]byte the
+// caller owns; anything else "unknown: <type>".
+func VerifC08ReadHeaderShape() string {
+	t := reflect.TypeOf(readHeader)
+	if t.Kind() != reflect.Func || t.NumOut() != 3 || t.Out(0) != verifC08Bytes || t.Out(1) != verifC08Bytes || t.Out(2) != verifC08Err || t.NumIn() == 0 || t.In(0) != verifC08ReaderPtr {
+		return "unknown: " + t.String()
+	}
+	if t.NumIn() == 1 {
+		return "own-buffer"
+	}
+	for i := 1; i < t.NumIn(); i++ {
+		if t.In(i) != verifC08Bytes && t.In(i) != verifC08BytesPtr {
+			return "unknown: " + t.String()
+		}
+	}
+	return "caller-buffer: " + t.String()
+}
 
 // VerifC08ReadHeader runs the real readHeader and returns its results untouched together with
-// the (possibly re-wrapped) rest of the stream.
+// the (possibly re-wrapped) rest of the stream. When readHeader wants a buffer from its caller,
+// the wrapper plays the caller the way Decrypt would: a buffer from BufPool, handed back when the
+// wrapper returns (so that what is returned is judged with the buffer back in the pool).
 func VerifC08ReadHeader(in io.Reader) (manifest, mac []byte, rest io.Reader, err error) {
-	manifest, mac, err = readHeader(&in)
-	return manifest, mac, in, err
+	shape := VerifC08ReadHeaderShape()
+	if len(shape) >= 7 && shape[:7] == "unknown" {
+		return nil, nil, in, fmt.Errorf("%w: %s", ErrVerifC08Shape, shape)
+	}
+	f := reflect.ValueOf(readHeader)
+	t := f.Type()
+	inv := reflect.New(verifC08Reader) // *io.Reader
+	inv.Elem().Set(reflect.ValueOf(&in).Elem())
+	args := []reflect.Value{inv}
+	for i := 1; i < t.NumIn(); i++ {
+		buf := BufPool.Get().(*[]byte)
+		defer BufPool.Put(buf)
+		if t.In(i) == verifC08Bytes {
+			args = append(args, reflect.ValueOf(*buf))
+		} else {
+			args = append(args, reflect.ValueOf(buf))
+		}
+	}
+	out := f.Call(args)
+	manifest, _ = out[0].Interface().([]byte)
+	mac, _ = out[1].Interface().([]byte)
+	if e, ok := out[2].Interface().(error); ok {
+		err = e
+	}
+	rest, _ = inv.Elem().Interface().(io.Reader)
+	return manifest, mac, rest, err
 }
